@@ -176,6 +176,10 @@ const ROOT_B: i64 = PAGE * 2;
 /// Starting offset for segment/fact data
 const FREE_START: i64 = PAGE * 3;
 
+/// Number of bytes wiped in a root slot that holds no valid root. Covers the
+/// length prefix and the longest possible serialized [`Root`].
+const ROOT_WIPE_LEN: usize = 64;
+
 /// Returns the other root slot, for ping-ponging between the two.
 fn other_root(slot: i64) -> i64 {
     if slot == ROOT_A { ROOT_B } else { ROOT_A }
@@ -218,18 +222,30 @@ impl Writer {
         // Pick the latest valid root and remember which slot it came
         // from; the next commit writes to the other slot so this one
         // survives until the new root is durable.
-        let (root, chosen) = match (
+        let (root, chosen, other_valid) = match (
             file.load(ROOT_A).and_then(Root::validate),
             file.load(ROOT_B).and_then(Root::validate),
         ) {
             (Ok(root_a), Ok(root_b)) => match root_a.generation.cmp(&root_b.generation) {
-                Ordering::Less => (root_b, ROOT_B),
-                Ordering::Equal | Ordering::Greater => (root_a, ROOT_A),
+                Ordering::Less => (root_b, ROOT_B, true),
+                Ordering::Equal | Ordering::Greater => (root_a, ROOT_A, true),
             },
-            (Ok(root_a), Err(_)) => (root_a, ROOT_A),
-            (Err(_), Ok(root_b)) => (root_b, ROOT_B),
+            (Ok(root_a), Err(_)) => (root_a, ROOT_A, false),
+            (Err(_), Ok(root_b)) => (root_b, ROOT_B, false),
             (Err(e), Err(_)) => return Err(e),
         };
+
+        // The other slot does not hold a valid root. It may still hold
+        // the intact body of a root whose commit was interrupted (only
+        // its length prefix missing). That body carries a generation
+        // newer than `root`, and a later interrupted root write that
+        // persists just the length prefix would make it loadable again,
+        // pointing at data that has since been overwritten. Wipe the
+        // slot durably before anything else is written to the file.
+        if !other_valid {
+            file.write_all(other_root(chosen), &[0u8; ROOT_WIPE_LEN])?;
+            file.sync()?;
+        }
 
         // Everything up to the write frontier is known to be
         // allocated; `ensure_capacity` grows from here as needed.
